@@ -16,9 +16,9 @@
 (*                the manager's own pairs)                                     *)
 (*  kind "reject": g, p, e  a request the advertised bounds do NOT admit; r =    *)
 (*     for adjust_power TRUE and FALSE: [adj, kind, calls] of the manager run    *)
-(*  kind "bounds": g, wk (wk[g][k]: battery k of group g reported working; the  *)
-(*     same set goes to calculate(metrics_data, working_batteries) and to the    *)
-(*     manager's status tracker), hp (probe powers in half units, from TLC), adv / enf *)
+(*  kind "bounds": g, bs (bs[g][k]: status "w"/"u"/"n" of battery k of group g;  *)
+(*     one real ComponentPoolStatus(working, uncertain) gives the pool its        *)
+(*     working_batteries for calculate() and answers the manager's queries), hp (probe powers in half units, from TLC), adv / enf *)
 (*     (<<il, el, eu, iu>> of PowerBoundsCalculator.calculate / BatteryManager *)
 (*     ._get_bounds), accA / accN (per probe: _check_request with / without    *)
 (*     adjust_power did not answer OutOfBounds), cont (Power in SystemBounds), *)
@@ -125,7 +125,7 @@ InAdvFP(hp, a) == (a[1] - Tol <= hp * HalfSC /\ hp * HalfSC <= a[2] + Tol)
                   \/ (a[3] - Tol <= hp * HalfSC /\ hp * HalfSC <= a[4] + Tol)
 BndFP(b) == <<b.il * SC, b.el * SC, b.eu * SC, b.iu * SC>>
 BoundsChecks(r) ==
-    LET gs == Effective(r.g, r.wk)      \* model side only (DRIFT lines); the clauses use recorded numbers
+    LET gs == EffectiveSt(r.g, r.bs)      \* model side only (DRIFT lines); the clauses use recorded numbers
         A == Advertised(gs)
         E == Enforced(gs)
     IN /\ Check(Near(r.adv[1], r.enf[1]) /\ Near(r.adv[4], r.enf[4]), "C17.InclusionIdentical",
@@ -178,8 +178,14 @@ ExercisedReject(r) ==
         commanded_runs |-> Cardinality({k \in 1..Len(r.r) : cmd(r.r[k])})]
 ExercisedBounds(r) ==
     [probes |-> Len(r.hp),
-     partially_working |-> B2N(PartiallyWorking(r.wk)),
-     group_not_working |-> B2N(Len(Effective(r.g, r.wk)) < Len(r.g)),
+     partially_working |-> B2N(PartiallyWorking(WorkingOf(r.bs))),
+     group_not_working |-> B2N(Len(EffectiveSt(r.g, r.bs)) < Len(r.g)),
+     set_working_other_only_uncertain |->
+        B2N(\E k \in 1..Len(r.bs), k2 \in 1..Len(r.bs) :
+              /\ \E b \in 1..Len(r.bs[k]) : r.bs[k][b] = "w"
+              /\ \A b \in 1..Len(r.bs[k2]) : r.bs[k2][b] # "w"
+              /\ \E b \in 1..Len(r.bs[k2]) : r.bs[k2][b] = "u"),
+     fallback_all_uncertain |-> B2N(\A k \in 1..Len(r.bs) : \A b \in 1..Len(r.bs[k]) : r.bs[k][b] # "w"),
      in_advertised |-> Cardinality({k \in 1..Len(r.hp) : InAdvFP(r.hp[k], r.adv)}),
      contains |-> Cardinality({k \in 1..Len(r.hp) : r.cont[k]}),
      rejected |-> Cardinality({k \in 1..Len(r.hp) : ~r.accN[k]}),
